@@ -150,7 +150,7 @@ if __name__ == "__main__":
     if write:
         lines = ["# Independently seeded regressions vs. the checks", "",
                  "Each seed was written by a sub-agent that saw only the property text and a scratch worktree",
-                 "(`seeded/<id>/patch.diff`, `demo.py`, `meta.json`); `-s*` = first round, `-t*` = second round",
+                 "(`seeded/<id>/patch.diff`, `demo.py`, `meta.json`); rounds `-s` .. `-w` and cross-cutting `X1`-`X9`",
                  "(asked for changes of a different kind). The check named is run with `VERIF_REPO` aimed at a",
                  f"scratch copy with the patch applied (tier {tier}).", "",
                  "| seed | check | exit | first signature reported | what the change does |", "|---|---|---|---|---|"]
